@@ -134,10 +134,34 @@ def list_theorems(module_file: Path):
     return names
 
 
+class Hang(BaseException):
+    """Raised by the watchdog (check.py) when the code under test makes no progress: an edit, query or walk of the real
+    implementation that does not return.  BaseException: no `except Exception` of the harness swallows it."""
+
+
+PROGRESS = time.time()     # last sign of life (ctx.case / ctx.count / driver batches)
+IN_DRIVER = False          # waiting for the Lean driver is not a stall of the code under test
+CURRENT = None             # replay description of the step being executed, when the harness provides one
+
+
+def alive():
+    global PROGRESS
+    PROGRESS = time.time()
+
+
 class Driver:
     """Runs the Lean model on a batch of protocol lines (one output line per input line)."""
 
     def run(self, lines: list[str]) -> list[str]:
+        global IN_DRIVER
+        IN_DRIVER = True
+        try:
+            return self._run(lines)
+        finally:
+            IN_DRIVER = False
+            alive()
+
+    def _run(self, lines: list[str]) -> list[str]:
         if not lines:
             return []
         data = '\n'.join(lines) + '\n'
